@@ -18,6 +18,7 @@
 #include "dataset_gen.h"
 
 #include <filesystem>
+#include <sys/wait.h>
 #include <nano/core/verif.h>
 #include <nano/dataset.h>
 #include <nano/gboost/enums.h>
@@ -201,20 +202,20 @@ rc::Gen<mcase_t> gen_mcase_of(bool gboost)
                 oo.max_samples = 40; // small data sets: the folds are tiny
             }
             return rc::gen::mapcat(
-                ds::gen_data(oo),
+                rc::gen::noShrink(ds::gen_data(oo)), // (every shrink attempt is a full fit: only the configuration shrinks)
                 [=](const data_spec_t& d0)
                 {
                     const auto K = target_components(d0);
                     const auto J = static_cast<int>(d0.inputs().size());
                     const auto n = d0.samples;
 
-                    const auto planted = rc::gen::map(
+                    const auto planted = rc::gen::noShrink(rc::gen::map(
                         rc::gen::tuple(gen::vec(static_cast<size_t>(2 * K * J), 1.0), rc::gen::container<std::vector<double>>(static_cast<size_t>(n * K), gen::normal()),
                                        gen::real(0.05, 1.5)),
                         [d0](const std::tuple<std::vector<double>, std::vector<double>, double>& cn)
-                        { return plant_targets(d0, std::get<0>(cn), std::get<1>(cn), std::get<2>(cn)); });
+                        { return plant_targets(d0, std::get<0>(cn), std::get<1>(cn), std::get<2>(cn)); }));
 
-                    const auto excluded = rc::gen::mapcat(gen::range<int>(0, 3),
+                    const auto excluded = rc::gen::noShrink(rc::gen::mapcat(gen::range<int>(0, 3),
                                                           [n](int style) -> rc::Gen<std::vector<int>>
                                                           {
                                                               if (style <= 1)
@@ -227,7 +228,7 @@ rc::Gen<mcase_t> gen_mcase_of(bool gboost)
                                                                                      [n](int k) {
                                                                                          return rc::gen::container<std::vector<int>>(static_cast<size_t>(k), gen::range<int>(0, n - 1));
                                                                                      });
-                                                          });
+                                                          }));
 
                     const auto common = rc::gen::tuple(
                         /*0 loss*/ gen::range<int>(0, 6), /*1 alpha*/ rc::gen::element(0.5, 0.1, 0.9, 0.25), /*2 scaling*/ gen::range<int>(0, 3),
@@ -360,7 +361,7 @@ struct preds_t
     {
         for (tensor_size_t i = 0; i < outputs.size(); ++i)
         {
-            if (!std::isfinite(outputs(i)))
+            if (!(std::fabs(outputs(i)) <= 1e100))
             {
                 return false;
             }
@@ -455,6 +456,10 @@ struct values_t
 {
     std::vector<double> errors, losses;
     bool                fragile{false}; // an error value is decided by the last bits of a prediction (classification)
+    // predictions are compared at 1e-9 x (sum of |terms|): the largest change of a per-sample error / loss value such a
+    // difference in the outputs induces (measured by perturbing the outputs) is the absolute part of the tolerance of
+    // every statistic computed from them (matters when losses are ~0: (1 - t.o)^2 at t.o ~ 1, squared residuals ~ 0)
+    double etol{0.0}, ltol{0.0};
 };
 
 values_t evaluate_preds(const nano::dataset_t& dataset, const indices_t& samples, const nano::loss_t& loss, const preds_t& p, int target_kind)
@@ -470,6 +475,29 @@ values_t evaluate_preds(const nano::dataset_t& dataset, const indices_t& samples
     {
         v.errors.push_back(errors(i));
         v.losses.push_back(losses(i));
+    }
+    for (int pattern = 0; pattern < 4; ++pattern)
+    {
+        tensor4d_t       moved = p.outputs;
+        nano::tensor1d_t e2(samples.size()), l2(samples.size());
+        for (tensor_size_t k = 0; k < moved.size(); ++k)
+        {
+            const auto sign = pattern == 0 ? 1.0 : pattern == 1 ? -1.0 : ((k + pattern) % 2 == 0 ? 1.0 : -1.0);
+            moved(k) += sign * 4.0 * rel_tol * p.scale[static_cast<size_t>(k)];
+        }
+        loss.error(targets, moved, e2.tensor());
+        loss.value(targets, moved, l2.tensor());
+        for (tensor_size_t i = 0; i < samples.size(); ++i)
+        {
+            if (target_kind == 0 && std::isfinite(e2(i)))
+            {
+                v.etol = std::max(v.etol, std::fabs(e2(i) - errors(i)));
+            }
+            if (std::isfinite(l2(i)))
+            {
+                v.ltol = std::max(v.ltol, std::fabs(l2(i) - losses(i)));
+            }
+        }
     }
     // classification errors are step functions of the outputs: a prediction within the comparison tolerance of a
     // decision boundary (output ~ 0, or the two largest scores equal) makes the 0/1 error depend on rounding
@@ -507,11 +535,12 @@ values_t evaluate_preds(const nano::dataset_t& dataset, const indices_t& samples
     return v;
 }
 
+// finite and small enough for sums of squares (a diverged fit, e.g. an overflowing exponential loss, is outside this property)
 bool all_finite(const std::vector<double>& v)
 {
     for (const auto x : v)
     {
-        if (!std::isfinite(x))
+        if (!(std::fabs(x) <= 1e100))
         {
             return false;
         }
@@ -522,7 +551,7 @@ bool all_finite(const std::vector<double>& v)
 // mean / stdev / count / percentiles recomputed from the per-sample values and compared with the stored ones.
 //   stdev is the library's `tensor.stdev()` statistic, whose definition is pinned by the baseline suite
 //   (test/test_stats.cpp: sqrt(population variance / (n - 1))); percentile positions as in harness/c20_stats.cpp.
-void compare_stats(outcome_t& out, ctx_t& ctx, const std::string& where, const nano::ml::stats_t& got, std::vector<double> values)
+void compare_stats(outcome_t& out, ctx_t& ctx, const std::string& where, const nano::ml::stats_t& got, std::vector<double> values, double abs_tol)
 {
     const auto n = values.size();
     if (n == 0)
@@ -540,7 +569,7 @@ void compare_stats(outcome_t& out, ctx_t& ctx, const std::string& where, const n
     const auto dn      = static_cast<long double>(n);
     const auto mean    = static_cast<double>(sum / dn);
     const auto meanabs = static_cast<double>(asum / dn);
-    const auto tol     = [&](double want) { return rel_tol * (std::fabs(want) + meanabs) + 1e-300; };
+    const auto tol     = [&](double want) { return rel_tol * (std::fabs(want) + meanabs) + abs_tol + 1e-300; };
 
     if (got.m_count != static_cast<double>(n))
     {
@@ -709,6 +738,71 @@ verdict_t check_mcase(const mcase_t& c, ctx_t& ctx)
         return verdict_t::discard("setup-rejected"); // a replay file with values outside a parameter's domain
     }
 
+    // ---- open finding (notes/C11.md, "tboost crash"): with gboost::wscale == tboost, a look-up-table weak learner fitted on a
+    // categorical feature without a given value among the fitting samples has zero tables, its split has zero groups and
+    // gboost_model_t::fit reads `gstate.x().min()` of an empty vector (src/gboost/model.cpp:159) => SIGSEGV.  Cases the
+    // mechanism can reach (over-approximation below) are first fitted in a forked child (no library thread exists at this
+    // point: every pool is owned by an object of the case); only if the child is killed by a signal the case is counted
+    // under the finding's signature, otherwise it is checked like any other case.
+    bool risky = false, in_child = false;
+    if (gboost && c.wscale % 2 == 1)
+    {
+        bool tables = false, optional_categorical = false;
+        for (const auto id : c.pool)
+        {
+            tables = tables || (static_cast<size_t>(id) % 8 >= 3);
+        }
+        for (const auto f : d.inputs())
+        {
+            if (!d.spec(f).is_continuous())
+            {
+                for (int i = 0; i < d.samples; ++i)
+                {
+                    optional_categorical = optional_categorical || !d.given(f, i);
+                }
+            }
+        }
+        risky = tables && optional_categorical;
+    }
+    if (risky)
+    {
+        std::fflush(nullptr);
+        const auto pid = ::fork();
+        if (pid == 0)
+        {
+            in_child = true;
+            for (const int sig : {SIGSEGV, SIGABRT, SIGFPE, SIGBUS, SIGILL, SIGTERM})
+            {
+                ::signal(sig, SIG_DFL); // the crash handler of common.h would dump this case as `crash.case`
+            }
+            ::alarm(600);
+        }
+        else if (pid > 0)
+        {
+            int status = 0;
+            ::waitpid(pid, &status, 0);
+            if (WIFSIGNALED(status) && WTERMSIG(status) == SIGALRM)
+            {
+                return verdict_t::discard("fit-probe-timeout");
+            }
+            if (WIFSIGNALED(status))
+            {
+                ctx.label("tboost-empty-table-crash");
+                return verdict_t::known("C11/gboost/fit-crash/tboost-empty-table",
+                                        cat("gboost_model_t::fit killed by signal ", WTERMSIG(status), " (wscale=tboost, look-up-table weak learner, categorical input with missing values)"));
+            }
+            ctx.label("tboost-probe-survived");
+        }
+    }
+    const auto leave = [&](verdict_t v)
+    {
+        if (in_child)
+        {
+            ::_exit(0);
+        }
+        return v;
+    };
+
     const auto source  = ds::make_datasource(d);
     auto       dataset = nano::dataset_t{*source, static_cast<size_t>(c.threads)};
     dataset.add<nano::sclass_identity_generator_t>();
@@ -761,7 +855,7 @@ verdict_t check_mcase(const mcase_t& c, ctx_t& ctx)
     }
     catch (const std::exception&)
     {
-        return verdict_t::discard("setup-rejected");
+        return leave(verdict_t::discard("setup-rejected"));
     }
 
     // ---- fit -------------------------------------------------------------------------------------------------
@@ -774,13 +868,17 @@ verdict_t check_mcase(const mcase_t& c, ctx_t& ctx)
         const std::string what = e.what();
         if (what.find("invalid value") != std::string::npos)
         {
-            return verdict_t::discard("tuner-rejects-non-finite-validation-error"); // diverged fit (outside this property)
+            return leave(verdict_t::discard("tuner-rejects-non-finite-validation-error")); // diverged fit (outside this property)
         }
         if (what.find("surrogate model") != std::string::npos)
         {
-            return verdict_t::discard("surrogate-model-not-fitted"); // documented critical of the surrogate tuner (DESIGN.md 4.6)
+            return leave(verdict_t::discard("surrogate-model-not-fitted")); // documented critical of the surrogate tuner (DESIGN.md 4.6)
         }
-        return verdict_t::violation("C11/exception/fit", what);
+        return leave(verdict_t::violation("C11/exception/fit", what));
+    }
+    if (in_child)
+    {
+        ::_exit(0);
     }
     remove_logs(result);
 
@@ -845,9 +943,9 @@ verdict_t check_mcase(const mcase_t& c, ctx_t& ctx)
                     outcome_t  local;
                     if (!v.fragile)
                     {
-                        compare_stats(local, ctx, cat(tag, "/", split_name(isplit), "-errors"), estats, v.errors);
+                        compare_stats(local, ctx, cat(tag, "/", split_name(isplit), "-errors"), estats, v.errors, v.etol);
                     }
-                    compare_stats(local, ctx, cat(tag, "/", split_name(isplit), "-losses"), lstats, v.losses);
+                    compare_stats(local, ctx, cat(tag, "/", split_name(isplit), "-losses"), lstats, v.losses, v.ltol);
                     out.add(local.worst, local.where, local.msg + at);
                     if (isplit == 1 && !v.fragile)
                     {
@@ -875,12 +973,12 @@ verdict_t check_mcase(const mcase_t& c, ctx_t& ctx)
                         const auto cnt = static_cast<long double>(std::max<size_t>(v.errors.size(), 1U));
                         if (!v.fragile)
                         {
-                            out.add(closeness(st(R, 2 * isplit + 0), static_cast<double>(esum / cnt), 2 * rel_tol * static_cast<double>(easum / cnt) + 1e-300),
+                            out.add(closeness(st(R, 2 * isplit + 0), static_cast<double>(esum / cnt), 2 * rel_tol * static_cast<double>(easum / cnt) + v.etol + 1e-300),
                                     cat("fold-model/last-row/", split_name(isplit), "-error"),
                                     cat("statistics(", R, ",", 2 * isplit, ")=", st(R, 2 * isplit + 0), " recomputed from the stored fold model=", static_cast<double>(esum / cnt),
                                         " weak learners kept=", gres->m_wlearners.size(), at));
                         }
-                        out.add(closeness(st(R, 2 * isplit + 1), static_cast<double>(lsum / cnt), 2 * rel_tol * static_cast<double>(lasum / cnt) + 1e-300),
+                        out.add(closeness(st(R, 2 * isplit + 1), static_cast<double>(lsum / cnt), 2 * rel_tol * static_cast<double>(lasum / cnt) + v.ltol + 1e-300),
                                 cat("fold-model/last-row/", split_name(isplit), "-loss"),
                                 cat("statistics(", R, ",", 2 * isplit + 1, ")=", st(R, 2 * isplit + 1), " recomputed from the stored fold model=", static_cast<double>(lsum / cnt),
                                     " weak learners kept=", gres->m_wlearners.size(), at));
@@ -1039,41 +1137,14 @@ verdict_t check_mcase(const mcase_t& c, ctx_t& ctx)
                 outcome_t local;
                 if (!v.fragile)
                 {
-                    compare_stats(local, ctx, "final/errors", result.stats(value_type::errors), v.errors);
+                    compare_stats(local, ctx, "final/errors", result.stats(value_type::errors), v.errors, v.etol);
                 }
-                compare_stats(local, ctx, "final/losses", result.stats(value_type::losses), v.losses);
+                compare_stats(local, ctx, "final/losses", result.stats(value_type::losses), v.losses, v.ltol);
                 out.add(local.worst, local.where, local.msg);
 
-                // learner_t::evaluate reports the same per-sample values
-                const tensor2d_t ev = learner.evaluate(dataset, s.samples, *s.loss);
-                if (ev.size<0>() != 2 || ev.size<1>() != s.samples.size())
-                {
-                    out.add(cmp_t::bad, "final/evaluate-shape", cat(ev.size<0>(), "x", ev.size<1>()));
-                }
-                else
-                {
-                    double lmag = 0.0;
-                    for (const auto x : v.losses)
-                    {
-                        lmag += std::fabs(x) / static_cast<double>(v.losses.size());
-                    }
-                    const auto tsize = own.outputs.size() / s.samples.size();
-                    for (tensor_size_t i = 0; i < s.samples.size(); ++i)
-                    {
-                        double esc = 0.0;
-                        for (tensor_size_t t = 0; t < tsize; ++t)
-                        {
-                            esc += own.scale[static_cast<size_t>(i * tsize + t)];
-                        }
-                        if (!v.fragile)
-                        {
-                            out.add(closeness(ev(0, i), v.errors[static_cast<size_t>(i)], rel_tol * (std::fabs(v.errors[static_cast<size_t>(i)]) + esc) + 1e-300),
-                                    "final/evaluate-error", cat("sample ", i, ": ", ev(0, i), " vs ", v.errors[static_cast<size_t>(i)]));
-                        }
-                        out.add(closeness(ev(1, i), v.losses[static_cast<size_t>(i)], rel_tol * (std::fabs(v.losses[static_cast<size_t>(i)]) + lmag) + 1e-300), "final/evaluate-loss",
-                                cat("sample ", i, ": ", ev(1, i), " vs ", v.losses[static_cast<size_t>(i)]));
-                    }
-                }
+                // NB: learner_t::evaluate is not part of the statement and is not called here: for a linear model whose
+                // linear::batch is smaller than the targets batch it re-enters the dataset's thread pool from inside a pool
+                // task and dead-locks once every worker is busy (see notes/C11.md, "evaluate dead-lock").
             }
         }
     }
